@@ -230,7 +230,8 @@ def run(prop, tier, seed, replay=None):
             continue
         n_viol += 1
         if reported < 5:
-            small = shrink(c, lambda cc: prop.oracle(cc, (vlib.run_impl(exe, _w(outdir, cc), 1, timeout=30)[0] or [[]])[0]) is not None and prop.known(cc, [], "") is None) if not replay else c
+            hung = io[:1] == [2] and len(io) == 2 and io[1] in (4, 8)   # abort / hang: do not re-run 150 times
+            small = c if hung else shrink(c, lambda cc: prop.oracle(cc, (vlib.run_impl(exe, _w(outdir, cc), 1, timeout=30)[0] or [[]])[0]) is not None and prop.known(cc, [], "") is None) if not replay else c
             io_s = vlib.run_impl(exe, _w(outdir, small), 1, timeout=30)[0][0]
             path = os.path.join(outdir, "violation_%s_%d.json" % (tier, i))
             vlib.write_json(path, {
